@@ -409,17 +409,32 @@ class Evaluator(object):
             return "return"
         return "mixed"
 
+    def _assume_env(self, env, c, pol):
+        """the environment inside a branch: values that were chosen on this very condition are the chosen ones"""
+        cc, flip = c, False
+        while cc.op == "un" and cc.a[0] == "not":
+            cc, flip = cc.a[1], not flip
+        if cc.op == "cmp" and cc.a[0] in ("isnot", "notin", "!="):
+            cc = tm.cmp({"isnot": "is", "notin": "in", "!=": "=="}[cc.a[0]], cc.a[1], cc.a[2])
+            flip = not flip
+        p = (not pol) if flip else pol
+        out = {}
+        memo = {}
+        for k, v in env.items():
+            out[k] = tm.assume(v, cc, p, memo) if hasattr(v, "op") else v
+        return out
+
     def if_stmt(self, st, env):
         c = self.ev(st.test, env)
         saved = self.pc
         self.pc = saved + (("if", c, True, None),)
         n0 = len(self.summary.sites)
-        et = self.run_keep_pc(st.body, dict(env))
+        et = self.run_keep_pc(st.body, self._assume_env(env, c, True))
         pct = self.pc
         kt = self._exit_kind(n0) if et is None else None
         self.pc = saved + (("if", c, False, None),)
         n1 = len(self.summary.sites)
-        ef = self.run_keep_pc(st.orelse, dict(env))
+        ef = self.run_keep_pc(st.orelse, self._assume_env(env, c, False))
         pcf = self.pc
         kf = self._exit_kind(n1) if ef is None else None
         self.pc = saved
@@ -1097,6 +1112,17 @@ class Evaluator(object):
                 ct = self.ev(c, inner)
                 conds.append(ct)
                 self.pc = self.pc + (("if", ct, True, None),)
+        if UNROLL and len(node.generators) == 1 and not node.generators[0].ifs and kind in ("list", "gen", "set") and len(elts) == 1:
+            elems = self._unroll_elements(iters[0])
+            if elems is not None:
+                # a comprehension over a literal collection is the display of its elements
+                self.pc = saved
+                out = []
+                for e in elems:
+                    env2 = dict(env)
+                    self.assign(node.generators[0].target, e, env2, node)
+                    out.append(self.ev(elts[0], env2))
+                return tm.lst(out) if kind in ("list", "gen") else tm.mk("set", *out)
         vals = tuple(self.ev(e, inner) for e in elts)
         self.pc = saved
         return tm.mk("comp", kind, vals[0] if len(vals) == 1 else tm.tup(vals), tuple(iters), tuple(conds), cid)
